@@ -247,6 +247,7 @@ def mutants(prog):
         ("GridAttrs: inverse without transpose", "deepali.utils.simpleitk.grid", "GridAttrs.inverse_transform", "rotation = self.dcm.T", "rotation = self.dcm", "T1.itk-attrs"),
         ("GridAttrs: header cross-wired", "deepali.utils.simpleitk.grid", "image_grid_attributes", "origin=image.GetOrigin(), spacing=image.GetSpacing()", "origin=image.GetSpacing(), spacing=image.GetOrigin()", "T1.itk-attrs"),
         ("GridAttrs: center route sign", "deepali.utils.simpleitk.grid", "GridAttrs.__init__", "np.asanyarray(center) - np.matmul(rotation @ scaling, offset)", "np.asanyarray(center) + np.matmul(rotation @ scaling, offset)", "T1.itk-attrs"),
+        ("pool: origin by floor division", G, "Grid.pool", "ks.sub(1).div(2)", "ks.sub(1).div(2).floor()", "T9.crop-family"),
     ]
     for name, mod, fn, old, new, expect in specs:
         ov = source_sub(prog, mod, fn, old, new)
